@@ -13,6 +13,7 @@ import (
 	"bytes"
 	"crypto/sha1"
 	"errors"
+	"sync/atomic"
 	"fmt"
 	"net"
 	"strings"
@@ -40,6 +41,8 @@ type memConn struct {
 	out    [][]byte
 	closed chan struct{}
 	once   sync.Once
+
+	failWrites atomic.Bool // WriteTo returns an error (local outage)
 }
 
 func newMemConn(local net.Addr) *memConn {
@@ -59,11 +62,16 @@ func (c *memConn) WriteTo(p []byte, _ net.Addr) (int, error) {
 		return 0, net.ErrClosed
 	default:
 	}
+	if c.failWrites.Load() {
+		return 0, errOutage
+	}
 	c.mu.Lock()
 	c.out = append(c.out, append([]byte(nil), p...))
 	c.mu.Unlock()
 	return len(p), nil
 }
+var errOutage = errors.New("injected: network unreachable")
+
 func (c *memConn) take() [][]byte {
 	c.mu.Lock()
 	defer c.mu.Unlock()
@@ -827,6 +835,125 @@ func (w *world) oobAsymmetric() {
 	w.o.Res.Cases--
 }
 
+// fixedPair: two plain sessions (no cipher, no FEC) for the fixed scenarios below; oracle-only ops.
+func (w *world) fixedPair(title string) (ca, cb *memConn) {
+	g := w.g
+	w.hist++
+	w.ops = []string{"fixed: " + title}
+	w.netAB, w.netBA = nil, nil
+	w.aborted, w.modeled, w.leaveBlocked = false, false, false
+	w.cipher, w.ds, w.ps = "nil", 0, 0
+	w.seen = map[string]bool{}
+	conv := g.U32()
+	aAddr := &net.UDPAddr{IP: net.IPv4(10, 0, 0, 1), Port: 1000}
+	bAddr := &net.UDPAddr{IP: net.IPv4(10, 0, 0, 2), Port: 2000}
+	ca, cb = newMemConn(aAddr), newMemConn(bAddr)
+	sa, _ := kcp.NewConn3(conv, bAddr, nil, 0, 0, ca)
+	sb, _ := kcp.NewConn3(conv, aAddr, nil, 0, 0, cb)
+	w.a = &side{name: "a", s: sa, conn: ca, addr: aAddr}
+	w.b = &side{name: "b", s: sb, conn: cb, addr: bAddr}
+	w.mtu = [2]int{1400, 1400}
+	sa.SetNoDelay(1, 10, 2, 1)
+	sb.SetNoDelay(1, 10, 2, 1)
+	synctest.Wait()
+	return
+}
+
+func (w *world) fixedEnd(ca, cb *memConn, name string) {
+	w.a.s.Close()
+	w.b.s.Close()
+	ca.Close()
+	cb.Close()
+	synctest.Wait()
+	w.o.Case(name)
+	w.o.Res.Cases--
+}
+
+// exchange: one fair round at the current instant (both directions, in order), optionally without reader
+func (w *world) exchange(readB bool) {
+	w.pump(w.a)
+	for len(w.netAB) > 0 && !w.aborted {
+		p := w.netAB[0]
+		w.netAB = w.netAB[1:]
+		w.input(w.b, p)
+		if readB {
+			w.readAll(w.b)
+		}
+	}
+	w.pump(w.b)
+	for len(w.netBA) > 0 && !w.aborted {
+		p := w.netBA[0]
+		w.netBA = w.netBA[1:]
+		w.input(w.a, p)
+	}
+}
+
+// stalledSessionLostWins (C03 / C02, fixed scenario, session level): the reader of b is away until the
+// sender is at a complete standstill (window closed, nothing outstanding, data still queued); when it
+// comes back, the window update b sends is lost.  The sender's REAL update callback must keep
+// running the zero-window probe: the transfer resumes and completes.
+func (w *world) stalledSessionLostWins() {
+	ca, cb := w.fixedPair("stalled reader, window update lost (sessions)")
+	w.b.s.SetWindowSize(32, 4)
+	w.now = 1000
+	for i := 0; i < 4; i++ {
+		w.write(w.a, [][]byte{w.payload(w.a, 100)})
+	}
+	for i := 0; i < 20 && !w.aborted; i++ { // b's queue fills (4 = its window), a learns wnd = 0, everything outstanding is acknowledged
+		w.exchange(false)
+		w.now += 10
+	}
+	for i := 0; i < 8; i++ {
+		w.write(w.a, [][]byte{w.payload(w.a, 100)}) // queued: the window is closed
+	}
+	for i := 0; i < 20 && !w.aborted; i++ {
+		w.exchange(false)
+		w.now += 10
+	}
+	d := w.state(w.a)
+	if d.RmtWnd != 0 || len(d.SndBuf) != 0 || len(d.SndQueue) == 0 {
+		w.o.Note(fmt.Sprintf("stalledSessionLostWins: not at a standstill (rmt_wnd %d, outstanding %d, queued %d)", d.RmtWnd, len(d.SndBuf), len(d.SndQueue)))
+	}
+	w.readAll(w.b) // the reader is back
+	w.pump(w.b)
+	w.netBA = nil // its window update is lost
+	for i := 0; i < 6000 && !w.aborted && len(w.b.got) < len(w.a.written); i++ { // up to 60 s of fair network
+		w.now += 10
+		w.exchange(true)
+	}
+	if !w.aborted && len(w.b.got) < len(w.a.written) {
+		d := w.state(w.a)
+		w.viol("no-resume", fmt.Sprintf("sessions: reader back, its window update lost, 60 s of fair network: b read %d of %d bytes (a: rmt_wnd %d probe_wait %d outstanding %d queued %d)", len(w.b.got), len(w.a.written), d.RmtWnd, d.ProbeWait, len(d.SndBuf), len(d.SndQueue)))
+	}
+	w.fixedEnd(ca, cb, "fixed-stalled-session-lost-wins")
+}
+
+// writeErrorOutage (C02, fixed scenario): the sender's socket reports errors for a while (local
+// outage: WriteTo fails) while accepted data is unacknowledged.  Once the socket works again the
+// update callback must still be running: the data is retransmitted and delivered.
+func (w *world) writeErrorOutage() {
+	ca, cb := w.fixedPair("socket write errors for 300 ms (sessions)")
+	w.now = 1000
+	w.write(w.a, [][]byte{w.payload(w.a, 200)})
+	w.exchange(true)
+	ca.failWrites.Store(true)
+	w.write(w.a, [][]byte{w.payload(w.a, 200)}) // accepted; its first transmission fails
+	for i := 0; i < 30 && !w.aborted; i++ {
+		w.now += 10
+		w.exchange(true)
+	}
+	ca.failWrites.Store(false) // healed
+	for i := 0; i < 3000 && !w.aborted && len(w.b.got) < len(w.a.written); i++ { // up to 30 s of fair network
+		w.now += 10
+		w.exchange(true)
+	}
+	if !w.aborted && len(w.b.got) < len(w.a.written) {
+		d := w.state(w.a)
+		w.viol("sess-no-drain", fmt.Sprintf("after a 300 ms outage of the sender's socket (WriteTo errors) and 30 s of fair network b read %d of %d bytes accepted by Write (a: outstanding %d queued %d)", len(w.b.got), len(w.a.written), len(d.SndBuf), len(d.SndQueue)))
+	}
+	w.fixedEnd(ca, cb, "fixed-write-error-outage")
+}
+
 // Run is the component entry point.
 func Run(o *hx.Out, g *hx.Rng, tier string) {
 	o.Res.Rule = "a case is one history of two real sessions (settings, Write/Read incl. blocking, manual update, per-datagram fates, fair drain, Close); configurations cycle through every cipher constructor x a FEC grid; histories without cipher and FEC are compared op by op with the Lean session model, the others run implementation-side oracles only; distinct = distinct op sequences (hash)"
@@ -834,6 +961,8 @@ func Run(o *hx.Out, g *hx.Rng, tier string) {
 	kcp.SetEntropy(entropy{g.Fork()})
 	w := &world{o: o, g: g, tier: tier}
 	w.oobAsymmetric()
+	w.stalledSessionLostWins()
+	w.writeErrorOutage()
 	n := 240
 	if tier == "thorough" {
 		n = 4500
